@@ -564,7 +564,7 @@ func c29(c *hx.Ctx) {
 	c.Class("gap-race")
 	for _, s := range gap {
 		c.Failf("c29-unsub-not-retracted-gap", map[string]any{"kind": "gap-race",
-			"history": "6 goroutines loop AddSubscription(fresh channel); Release() while a new peer stream is added every 35 ms; after all subscriptions are released and the loop is idle, the stream still holds Subscribe=true",
+			"history":       "6 goroutines loop AddSubscription(fresh channel); Release() while a new peer stream is added every 35 ms; after all subscriptions are released and the loop is idle, the stream still holds Subscribe=true",
 			"model_witness": "two-region loop body (Pubsub/LoopFine.v, before /repo 4585b8b): gap_trace = [LSubscribe 7; LAddPeer 1; LInit; LRelease 7; LSweep; LWake; LInit; LSweep]; the one-region model Sub.v (theorem c29_unsub) excludes it"}, "%s", s)
 	}
 }
